@@ -4,6 +4,7 @@ package eng
 
 import (
 	"fmt"
+	"github.com/element-of-surprise/coercion/workflow/storage/cosmosdb"
 	"sync"
 	"sync/atomic"
 	"time"
@@ -40,6 +41,8 @@ type Case struct {
 	// OnWaited, if set, is called with a snapshot of the run as soon as every Wait has returned (before the
 	// observation window): lets the caller journal a verdict before a late panic can kill the process.
 	OnWaited func(run *Run) `json:"-"`
+	// Vault: "" = in-memory sqlite, "cosmos" = cosmosdb vault over the fake client.
+	Vault string `json:"vault,omitempty"`
 	// WaitTimeoutMS is the watchdog on Wait (>= 100x nominal).
 	WaitTimeoutMS int `json:"wait_timeout_ms"`
 	// GraceMS is the observation window after quiescence.
@@ -85,18 +88,29 @@ type Run struct {
 type Env struct {
 	Log  *plug.Log
 	Reg  *registry.Register
-	Base *sqlite.Vault
+	Base storage.Vault
 	Rec  *rec.Vault
 	WS   *coercion.Workstream
 }
 
 // NewEnv builds a fresh in-memory environment.
 func NewEnv(ctx context.Context, vaultSeed int64, delayUS int, opts ...coercion.Option) (*Env, error) {
+	return NewEnvOn(ctx, "", vaultSeed, delayUS, opts...)
+}
+
+// NewEnvOn: kind "" = in-memory sqlite, "cosmos" = the cosmosdb vault over the package's fake client (verif hook).
+func NewEnvOn(ctx context.Context, kind string, vaultSeed int64, delayUS int, opts ...coercion.Option) (*Env, error) {
 	l := plug.NewLog()
 	reg := plug.Registry(l)
-	base, err := sqlite.New(ctx, "", reg, sqlite.WithInMemory())
-	if err != nil {
-		return nil, fmt.Errorf("sqlite.New: %w", err)
+	var base storage.Vault
+	if kind == "cosmos" {
+		base = cosmosdb.NewVerifVault(reg).Vault
+	} else {
+		sv, err := sqlite.New(ctx, "", reg, sqlite.WithInMemory())
+		if err != nil {
+			return nil, fmt.Errorf("sqlite.New: %w", err)
+		}
+		base = sv
 	}
 	rv := rec.New(base, l, vaultSeed, delayUS)
 	ws, err := coercion.New(ctx, reg, rv, opts...)
@@ -213,7 +227,7 @@ func Quiesce(l *plug.Log, stable, max time.Duration) bool {
 func Execute(c *Case) *Run {
 	ctx := context.Background()
 	run := &Run{}
-	env, err := NewEnv(ctx, c.VaultSeed, c.VaultDelayUS)
+	env, err := NewEnvOn(ctx, c.Vault, c.VaultSeed, c.VaultDelayUS)
 	if err != nil {
 		run.Err = err.Error()
 		return run
